@@ -206,6 +206,87 @@ def replay_native(w=None):
     return (bool(problems), "; ".join(problems[:3]) or f"{n} renders agree between source and precompiled stores")
 
 
+def native_scenarios(which=None):
+    """further store / load scenarios: -> {scenario: [problems]}"""
+    import shutil
+    import tempfile
+    from jinja2 import Environment, DictLoader, FileSystemLoader, ModuleLoader
+    out = {"unnormalised_names": [], "recompile_same_path": [], "symlinked_directory": []}
+    tmp = tempfile.mkdtemp(prefix="c31s_", dir=os.environ.get("PYVC_TMP") or None)
+
+    def render(env, name):
+        try:
+            return env.get_template(name).render()
+        except Exception as ex:
+            return f"{type(ex).__name__}: {str(ex)[:60]}"
+
+    def write_tree(root, files):
+        for rel, text in files.items():
+            pth = os.path.join(root, rel)
+            os.makedirs(os.path.dirname(pth), exist_ok=True)
+            with open(pth, "w", encoding="utf8") as f:
+                f.write(text)
+
+    try:
+        # spellings of one template name that the file system loader accepts
+        if which in (None, "unnormalised_names"):
+            root = os.path.join(tmp, "fs1")
+            write_tree(root, {"base.html": "[{% block body %}{% endblock %}]", "partials/item.html": "item", "partials/macros.html": "{% macro hi() %}hi{% endmacro %}",
+                              "page.html": "{% extends '/base.html' %}{% import 'partials//macros.html' as m %}{% block body %}{% include './partials/item.html' %}{{ m.hi() }}{% endblock %}",
+                              "page2.html": "{% include '/./partials/item.html' %}|{% include ['nope.html', '//base.html'] %}"})
+            for mode in (None, "deflated", "stored"):
+                src_env = Environment(loader=FileSystemLoader(root))
+                target = os.path.join(tmp, f"un_{mode}" + ("" if mode is None else ".zip"))
+                src_env.compile_templates(target, zip=mode, log_function=lambda x: None, ignore_errors=False)
+                mod_env = Environment(loader=ModuleLoader(target))
+                for name in ("page.html", "page2.html", "/page.html", "./base.html"):
+                    a, b = render(src_env, name), render(mod_env, name)
+                    if a != b:
+                        out["unnormalised_names"].append(f"zip={mode} {name!r}: from source {a!r}, precompiled {b!r}")
+        # a second compilation to the same path in one process
+        if which in (None, "recompile_same_path"):
+            for mode in (None, "deflated", "stored"):
+                target = os.path.join(tmp, f"re_{mode}" + ("" if mode is None else ".zip"))
+                Environment(loader=DictLoader({"a": "first version", "b": "b" * 400})).compile_templates(target, zip=mode, log_function=lambda x: None)
+                first = render(Environment(loader=ModuleLoader(target)), "a")
+                src_env = Environment(loader=DictLoader({"a": "second version, a good deal longer than the first {{ 1 + 1 }}", "c": "new one"}))
+                src_env.compile_templates(target, zip=mode, log_function=lambda x: None)
+                mod_env = Environment(loader=ModuleLoader(target))
+                for name in ("a", "c"):
+                    a, b = render(src_env, name), render(mod_env, name)
+                    if a != b:
+                        out["recompile_same_path"].append(f"zip={mode} after recompiling to the same path, {name!r}: from source {a!r}, precompiled {b!r} (first compilation rendered {first!r})")
+        # a sub-directory that is a symbolic link
+        if which in (None, "symlinked_directory"):
+            root = os.path.join(tmp, "fs2", "templates")
+            write_tree(root, {"page.html": "page {% include 'common/footer.html' %}"})
+            write_tree(os.path.join(tmp, "fs2", "shared"), {"footer.html": "FOOTER"})
+            try:
+                os.symlink(os.path.join("..", "shared"), os.path.join(root, "common"), target_is_directory=True)
+            except OSError:
+                pass
+            else:
+                for mode in (None, "deflated"):
+                    src_env = Environment(loader=FileSystemLoader(root))
+                    target = os.path.join(tmp, f"sym_{mode}" + ("" if mode is None else ".zip"))
+                    src_env.compile_templates(target, zip=mode, log_function=lambda x: None)
+                    mod_env = Environment(loader=ModuleLoader(target))
+                    a, b = render(src_env, "page.html"), render(mod_env, "page.html")
+                    if a != b:
+                        out["symlinked_directory"].append(f"zip={mode} 'page.html' including a template below a symlinked directory: from source {a!r}, precompiled {b!r} "
+                                                          f"(list_templates() = {src_env.list_templates()})")
+    finally:
+        shutil.rmtree(tmp, ignore_errors=True)
+    return out
+
+
+def scenario_replay(name):
+    def f(w=None):
+        ps = native_scenarios(name)[name]
+        return (bool(ps), "; ".join(ps[:2]) or f"scenario {name}: precompiled renders like source")
+    return f
+
+
 def _native_safe():
     try:
         return native_precompiled()
@@ -221,13 +302,29 @@ def standin(task, tier, seed):
                        "(list, ignore missing, without context), imports / from-imports with and without context, macros with call blocks, "
                        "recursive loops, autoescape, non-ASCII template name, one template with a syntax error) x {sync, async} x "
                        "{directory, deflated zip, stored zip} x 2 data assignments, plus one loader shared by an environment, its StrictUndefined overlay "
-                       "and a second environment (get_template / render / render-again sequences); oracle: same output or same exception class as from source; "
+                       "and a second environment (get_template / render / render-again sequences); file-system sets referenced by un-normalised names, a second "
+                       "compilation to the same path in one process, a symlinked sub-directory; oracle: same output or same exception class as from source; "
                        "stored text == compile(raw=True, defer_init=True)")
     problems, n = _native_safe()
     task.stats = {"renders": n, "seconds": round(time.time() - t0, 2)}
+    rs = []
     if problems:
-        return [Res("C31.native.sets", "refuted", "native", time.time() - t0, "; ".join(problems[:3])[:700], "bounded", witness={"problems": problems[:5]})]
-    return [Res("C31.native.sets", "bounded-ok", "native", time.time() - t0, f"{n} renders agree", "bounded")]
+        rs.append(Res("C31.native.sets", "refuted", "native", time.time() - t0, "; ".join(problems[:3])[:700], "bounded", witness={"problems": problems[:5]}))
+    else:
+        rs.append(Res("C31.native.sets", "bounded-ok", "native", time.time() - t0, f"{n} renders agree", "bounded"))
+    try:
+        sc = native_scenarios()
+    except Exception as ex:
+        sc = {"scenarios": [f"{type(ex).__name__}: {ex}"]}
+    for name, ps in sc.items():
+        rs.append(Res(f"C31.native.{name}", "refuted" if ps else "bounded-ok", "native", 0, "; ".join(ps[:2])[:700], "bounded", witness={"scenario": name} if ps else None))
+    return rs
+
+
+def standin_replay(w=None):
+    if w and w.get("scenario"):
+        return scenario_replay(w["scenario"])(w)
+    return replay_native(w)
 
 
 # ------------------------------------------------------------------------------------------ emit.defer_init
@@ -595,6 +692,14 @@ class CompileTemplates(VC):
 
         I.specs["cm_enter"] = cm_enter
         I.specs["cm_exit"] = cm_exit
+        import importlib
+        import importlib.util
+        I.specs[("fn", id(importlib.invalidate_caches))] = A.abstract_fn("invalidate_caches", returns=None)
+        F_cache = z3.Function("cache_from_source", z3.StringSort(), z3.StringSort())
+        self.F_cache = F_cache
+        I.specs[("fn", id(importlib.util.cache_from_source))] = lambda I_, st, args, kwargs, node: [(st, Sym(F_cache(to_term(args[0], "str")), "str"))]
+        I.specs[("fn", id(os.remove))] = A.abstract_fn("os.remove", returns=None, raises=[OSError])
+        I.specs[("fn", id(os.unlink))] = I.specs[("fn", id(os.remove))]
         I.specs[("fn", id(os.path.isdir))] = A.abstract_fn("isdir", returns="bool")
         I.specs[("fn", id(os.makedirs))] = A.abstract_fn("makedirs", returns=None)
         F_join = z3.Function("os.path.join", z3.StringSort(), z3.StringSort(), z3.StringSort())
@@ -723,8 +828,28 @@ class CompileTemplates(VC):
         evs = [e for e in out.st.trace if e.kind == "call"]
         return len(closes) == 1 and evs.index(closes[0]) > max([evs.index(e) for e in evs if e.name in ("writestr", "compile")] or [-1])
 
+    def p_fresh_for_import(self, pre_, out):
+        """what was written is what a later import reads (dependency spec of the import system: a zipimporter keeps the table of
+        contents of an archive, a FileFinder its directory listing, until importlib.invalidate_caches(); byte code cached in
+        __pycache__ is reused when mtime (seconds) and size of the source agree): after the last write the import caches are
+        invalidated, and in directory mode the cached byte code of every rewritten module is removed"""
+        if out.raised and not A.calls(out, "compile"):
+            return None
+        evs = [e for e in out.st.trace if e.kind == "call"]
+        inv = A.calls(out, "invalidate_caches")
+        last_write = max([evs.index(e) for e in evs if e.name in ("writestr", "file.write", "zip.close")] or [-1])
+        if last_write >= 0 and not any(evs.index(e) > last_write for e in inv):
+            return False
+        if self.zip_mode is None:
+            for op in A.calls(out, "open"):
+                path = op.args[0]
+                rem = [e for e in A.calls(out, "os.remove") if isinstance(e.args[0], Sym) and isinstance(path, Sym) and e.args[0].t.eq(self.F_cache(path.t)) and evs.index(e) > evs.index(op)]
+                if not rem:
+                    return False
+        return True
+
     posts = [("stores_deferred_raw_compilation_under_module_filename", p_protocol), ("syntax_errors_skipped_iff_ignore_errors", p_errors),
-             ("archive_closed_once_at_the_end", p_closed)]
+             ("archive_closed_once_at_the_end", p_closed), ("written_store_is_what_a_later_import_reads", p_fresh_for_import)]
     expect_paths_min = 4
 
     def replay(self, w):
@@ -747,7 +872,8 @@ def loader_tables(task, tier, seed):
 
     # get_template_key / get_module_filename: real functions against the documented formula
     fails = []
-    for name in ["a", "a/test.html", "ünï.html", "", "x" * 300, "with space.txt", "sub/deep.html", "a\\b", "名前"]:
+    names = ["a", "a/test.html", "ünï.html", "", "x" * 300, "with space.txt", "sub/deep.html", "a\\b", "名前"]
+    for name in names:
         want = "tmpl_" + hashlib.sha1(name.encode("utf-8")).hexdigest()
         if L.ModuleLoader.get_template_key(name) != want:
             fails.append(f"get_template_key({name!r}) = {L.ModuleLoader.get_template_key(name)!r}")
@@ -757,12 +883,28 @@ def loader_tables(task, tier, seed):
             fails.append("key is not an importable module name")
     row("key_formula", fails)
 
+    # spellings that the source loaders reading from a file system / package treat as one template (split_template_path drops
+    # empty and "." segments) must name one compiled module: the compiled code passes the spelling written in the template
+    fails = []
+    for name in ["base.html", "partials/item.html", "a/b/c.txt", "ünï.html"]:
+        segs = name.split("/")
+        spellings = {"/" + name, "./" + name, "//" + name, name.replace("/", "//"), name.replace("/", "/./"), "./" + name.replace("/", "//"), "/./" + name}
+        for sp in sorted(spellings - {name}):
+            if "/".join(L.split_template_path(sp)) != name:
+                continue
+            if L.ModuleLoader.get_template_key(sp) != L.ModuleLoader.get_template_key(name):
+                fails.append(f"[normalisation] FileSystemLoader / PackageLoader load {sp!r} as {name!r}, but ModuleLoader.get_template_key gives another module name for it")
+    row("key_normalisation", sorted(fails)[:6])
+
     # structure of the two functions (so that the sample above generalises): key = "tmpl_" + sha1(name.encode("utf-8")).hexdigest()
     fails = []
     k, _ = extract.function_ast(extract.resolve("jinja2.loaders:ModuleLoader.get_template_key"))
     body = [s for s in k.body if not (isinstance(s, ast.Expr) and isinstance(s.value, ast.Constant))]
-    if len(body) != 1 or not isinstance(body[0], ast.Return) or ast.unparse(body[0].value).replace('"', "'") not in ("'tmpl_' + sha1(name.encode('utf-8')).hexdigest()", "'tmpl_' + sha1(name.encode('utf8')).hexdigest()"):
-        fails.append(f"get_template_key body is {ast.unparse(k)[-120:]!r}")
+    # the hashed text is the name, possibly after re-binding `name` to a normalised spelling of itself
+    pre_ok = all(isinstance(s_, ast.Assign) and len(s_.targets) == 1 and ast.unparse(s_.targets[0]) == "name" and
+                 {x.id for x in ast.walk(s_.value) if isinstance(x, ast.Name)} <= {"name", "p", "split_template_path", "str"} for s_ in body[:-1])
+    if not body or not pre_ok or not isinstance(body[-1], ast.Return) or ast.unparse(body[-1].value).replace('"', "'") not in ("'tmpl_' + sha1(name.encode('utf-8')).hexdigest()", "'tmpl_' + sha1(name.encode('utf8')).hexdigest()"):
+        fails.append(f"get_template_key body is {ast.unparse(k)[-160:]!r}")
     if L.sha1 is not hashlib.sha1:
         fails.append("loaders.sha1 is not hashlib.sha1")
     m, _ = extract.function_ast(extract.resolve("jinja2.loaders:ModuleLoader.get_module_filename"))
@@ -1165,6 +1307,15 @@ def constructor_tables(task, tier, seed):
 
 # ------------------------------------------------------------------------------------------ tasks
 
+def _fk(t, k):
+    t.finding_key = k
+    return t
+
+
+def ct_key(res):
+    return res.name.split(".")[-1].split("#")[0]
+
+
 TASKS = (
     [TemplateEmitTask("C31", f"C31.emit.defer_init.{'async' if a else 'sync'}.{'known_extends' if ke else 'open'}", defer_pred, replay_fn=replay_native,
                       min_paths=16, whole=defer_whole, n_blocks=1, n_imports=1, env_fields={"is_async": a}, known_extends=ke)
@@ -1172,11 +1323,11 @@ TASKS = (
     + [
      FnTask("C31", "C31.emit.defer_init.reads", defer_reads, "table", replay_native),
      Generate(), EnvGenerate(), EnvCompile(),
-     CompileTemplates(None), CompileTemplates("deflated"), CompileTemplates("stored"),
-     FnTask("C31", "C31.module_loader.tables", loader_tables, "table", replay_native),
+     _fk(CompileTemplates(None), ct_key), _fk(CompileTemplates("deflated"), ct_key), _fk(CompileTemplates("stored"), ct_key),
+     _fk(FnTask("C31", "C31.module_loader.tables", loader_tables, "table", scenario_replay("unnormalised_names")), lambda r: "normalisation" if "[normalisation]" in (r.detail or "") else "?"),
      LoaderLoad(False, False), LoaderLoad(False, True), LoaderLoadTwice(),
      FnTask("C31", "C31.module_loader.constructor", constructor_tables, "table", replay_native),
-     FnTask("C31", "C31.native", standin, "bounded", replay_native)]
+     _fk(FnTask("C31", "C31.native", standin, "bounded", standin_replay), lambda r: r.name.rsplit(".", 1)[-1])]
 )
 
 META = {
